@@ -776,6 +776,11 @@ pub fn c11_seq_families(tier: &str) -> Vec<SeqSpec> {
     ];
     fams.push(spec("C11-seek/T300", &["T300"], k4(), a_seek, if t { 7 } else { 5 }, ck).flush());
     fams.push(trivial_move_family(t, ck));
+    // an iterator that outlives its handle while the directory gets a new owner
+    fams.insert(
+        0,
+        spec("C11-iterator-of-a-closed-handle/T300", &["T300"], k3(), vec![Op::Put(0, 0), Op::Put(1, 0), Op::Del(0), Op::Iter, Op::ReopenUnderLiveIter, Op::Compact(None, None)], if t { 6 } else { 4 }, ck).flush(),
+    );
     fams.push(rich_family("C11-rich/T300", k3(), a_c11(), if t { 4 } else { 3 }, ck));
     fams.push(levels_family("C11-levels/L", "L", k4(), a_c11(), if t { 4 } else { 3 }, ck));
     fams
